@@ -9,6 +9,8 @@ import (
 	"slices"
 	"testing"
 
+	"github.com/emirpasic/gods/v2/queues/priorityqueue"
+	"github.com/emirpasic/gods/v2/trees/binaryheap"
 	"pgregory.net/rapid"
 
 	"verif/harness/internal/all"
@@ -208,5 +210,137 @@ func TestGenerated(t *testing.T) {
 		for _, elem := range []string{"int", "string"} {
 			pbt.Run(t, pbt.Target[Case]{Name: kind + "/" + elem, Checks: 4000, Gen: gen(kind, elem), Check: check})
 		}
+	}
+}
+
+// ---------------------------------------------------------------------------
+// heaps with ties between distinguishable elements: the round trip must keep
+// the exact subsequent Pop/Dequeue sequence (the property's wording), which the
+// int/string targets above cannot see because equal-comparing ints are identical
+
+type Item struct {
+	P  int
+	ID int
+}
+
+type TieCase struct {
+	Kind string `json:"kind"` // binaryheap | priorityqueue
+	Max  bool   `json:"max"`
+	Ops  []int  `json:"ops"` // >= 0: push an item with that priority (ID = position); -1: pop
+}
+
+func itemCmp(max bool) func(a, b Item) int {
+	if max {
+		return func(a, b Item) int { return cmp.Compare(b.P, a.P) }
+	}
+	return func(a, b Item) int { return cmp.Compare(a.P, b.P) }
+}
+
+type tieHeap struct {
+	push   func(Item)
+	pop    func() (Item, bool)
+	values func() []Item
+	toJSON func() ([]byte, error)
+	from   func([]byte) error
+	asJSON any
+}
+
+func newTieHeap(kind string, max bool) tieHeap {
+	f := itemCmp(max)
+	if kind == "binaryheap" {
+		h := binaryheap.NewWith(f)
+		return tieHeap{func(i Item) { h.Push(i) }, h.Pop, h.Values, h.ToJSON, h.FromJSON, h}
+	}
+	q := priorityqueue.NewWith(f)
+	return tieHeap{q.Enqueue, q.Dequeue, q.Values, q.ToJSON, q.FromJSON, q}
+}
+
+func checkTies(c TieCase) (pbt.Info, error) {
+	var info pbt.Info
+	h := newTieHeap(c.Kind, c.Max)
+	n, pops := 0, 0
+	seen := map[int]int{}
+	ties := false
+	for i, op := range c.Ops {
+		if op < 0 {
+			if _, ok := h.pop(); ok {
+				n--
+				pops++
+			}
+			continue
+		}
+		h.push(Item{P: op, ID: i})
+		n++
+		seen[op]++
+		if seen[op] > 1 {
+			ties = true
+		}
+	}
+	b, err := h.toJSON()
+	if err != nil || !json.Valid(b) {
+		return info, fmt.Errorf("%s ToJSON: %v %q", c.Kind, err, b)
+	}
+	mb, err := json.Marshal(h.asJSON)
+	if err != nil || !bytes.Equal(mb, b) {
+		return info, fmt.Errorf("%s ToJSON %q and json.Marshal %q (%v) differ", c.Kind, b, mb, err)
+	}
+	f1, f2 := newTieHeap(c.Kind, c.Max), newTieHeap(c.Kind, c.Max)
+	if err := f1.from(b); err != nil {
+		return info, fmt.Errorf("%s FromJSON(own output %q) failed: %v", c.Kind, b, err)
+	}
+	if err := json.Unmarshal(b, f2.asJSON); err != nil {
+		return info, fmt.Errorf("%s json.Unmarshal(own output %q) failed: %v", c.Kind, b, err)
+	}
+	vals := h.values()
+	for i, f := range []tieHeap{f1, f2} {
+		if got := f.values(); !slices.Equal(got, vals) && len(got)+len(vals) > 0 {
+			return info, fmt.Errorf("%s reloaded (%d) iterates %v, original %v", c.Kind, i, got, vals)
+		}
+	}
+	var want []Item
+	for {
+		x, ok := h.pop()
+		if !ok {
+			break
+		}
+		want = append(want, x)
+	}
+	for i, f := range []tieHeap{f1, f2} {
+		var got []Item
+		for {
+			x, ok := f.pop()
+			if !ok {
+				break
+			}
+			got = append(got, x)
+		}
+		if !slices.Equal(got, want) && len(got)+len(want) > 0 {
+			return info, fmt.Errorf("%s: after reloading %q (%s) the Pop/Dequeue sequence is %v, the original container yields %v", c.Kind, b, []string{"FromJSON", "json.Unmarshal"}[i], got, want)
+		}
+	}
+	info.NonTrivial = n >= 4 && ties
+	if pops > 0 {
+		info.Label("after-pops")
+	}
+	if ties {
+		info.Label("ties")
+	}
+	return info, nil
+}
+
+func genTies(kind string) func(t *rapid.T) TieCase {
+	return func(t *rapid.T) TieCase {
+		c := TieCase{Kind: kind, Max: rapid.Bool().Draw(t, "max")}
+		hi := []int{1, 2, 4}[rapid.IntRange(0, 2).Draw(t, "prange")]
+		c.Ops = rapid.SliceOfN(rapid.IntRange(-1, hi), 0, 24).Draw(t, "ops")
+		more := rapid.SliceOfN(rapid.IntRange(0, hi), 0, 12).Draw(t, "more")
+		c.Ops = append(c.Ops, more...)
+		return c
+	}
+}
+
+func TestHeapTies(t *testing.T) {
+	for _, kind := range []string{"binaryheap", "priorityqueue"} {
+		pbt.Run(t, pbt.Target[TieCase]{Name: kind + "/ties", Checks: 8000, Gen: genTies(kind), Check: checkTies})
 	}
 }
